@@ -42,6 +42,15 @@ def run(ctx):
                     # an unrelated file and a second load must not matter
                     extra = [('write', 'd1/a', 'old')] if (rng.random() < 0.2 and not any(w[1] == 'd1/a' for w in ws) and not oov) else []
                     hs.append(ws + [('load', False)] + ([('load', rng.random() < 0.5)] if rng.random() < 0.5 else []) + extra * 0)
+            # the old name overridden in two places (the later file governs), alias in one and a real
+            # override in the other; the option changed after the first load, then a forced reload
+            hs += [[('write', 'main', 'old'), ('write', 'd1/b', 'old'), ('load', False)],
+                   [('write', 'd1/b', 'old'), ('write', 'main', 'old'), ('load', False)],
+                   [('write', 'main', 'alias'), ('write', 'd1/b', 'old'), ('load', False)],
+                   [('write', 'main', 'old'), ('write', 'd2/a', 'alias'), ('load', False)],
+                   [('write', 'd1/a', 'old'), ('write', 'd2/a', 'old'), ('load', False), ('delete', 'd2/a'), ('load', False)],
+                   [('load', False), ('setopt', not en), ('load', True), ('write', 'main', 'old'), ('load', False)],
+                   [('write', 'd1/a', 'alias'), ('load', False), ('setopt', not en), ('load', True), ('setopt', en), ('load', True)]]
             for style in ([rng.randrange(len(lc.STYLES))] if q else range(len(lc.STYLES))):
                 traces = []
                 for h in hs:
